@@ -40,6 +40,11 @@ type KV struct {
 
 func lit(n, v string) Entry  { return Entry{Name: n, E: Expr{K: "lit", S: v}} }
 func shv(n, t string) Entry  { return Entry{Name: n, E: Expr{K: "sh", S: t}} }
+
+// shtv: sh: whose text is itself a template, pre + {{.v}}
+func shtv(n, pre, v string) Entry {
+	return Entry{Name: n, E: Expr{K: "sh", Parts: []Part{{Lit: pre}, {Var: v}}}}
+}
 func refv(n, m string) Entry { return Entry{Name: n, E: Expr{K: "ref", S: m}} }
 func tmplv(n, pre, v, post string) Entry {
 	return Entry{Name: n, E: Expr{K: "tmpl", Parts: []Part{{Lit: pre}, {Var: v}, {Lit: post}}}}
@@ -53,8 +58,8 @@ func yq(s string) string {
 }
 
 func (e Expr) text() string {
-	switch e.K {
-	case "tmpl":
+	switch {
+	case e.K == "tmpl" || (e.K == "sh" && len(e.Parts) > 0):
 		var sb strings.Builder
 		for _, p := range e.Parts {
 			if p.Var != "" {
@@ -72,7 +77,7 @@ func (e Expr) text() string {
 func (en Entry) yamlValue() string {
 	switch en.E.K {
 	case "sh":
-		return "{sh: " + yq(en.E.S) + "}"
+		return "{sh: " + yq(en.E.text()) + "}"
 	case "ref":
 		return "{ref: " + yq("."+en.E.S) + "}"
 	default:
@@ -107,7 +112,10 @@ func coqExpr(e Expr) string {
 	case "lit":
 		return "(Lit " + cg.Str(e.S) + ")"
 	case "sh":
-		return "(Sh " + cg.Str(e.S) + ")"
+		if len(e.Parts) > 0 {
+			return "(Sh " + coqParts(e.Parts) + ")"
+		}
+		return "(Sh [TLit " + cg.Str(e.S) + "])"
 	case "ref":
 		return "(Ref " + cg.Str(e.S) + ")"
 	case "tmpl":
@@ -232,14 +240,36 @@ func coqPartsList(pss [][]Part) string {
 	return cg.List(items)
 }
 
-// coqCtxShared: like coqCtx, with the Taskfile-level env / vars given by name (defined once per case)
-func coqCtxShared(x Ctx, genvName, gvarsName string) string {
+// coqCtxShared: like coqCtx, with the Taskfile-level env / vars given by name and every repeated
+// sub-term (variable blocks, special variables, probe lists) defined once through the interner
+func coqCtxShared(in *Interner, x Ctx, genvName, gvarsName string) string {
+	ents := func(es []Entry) string {
+		if len(es) == 0 {
+			return "[]"
+		}
+		return in.Def("list entry", coqEntries(es))
+	}
+	strs := func(ss []string) string {
+		if len(ss) == 0 {
+			return "[]"
+		}
+		return in.Def("list string", cg.StrList(ss))
+	}
 	return fmt.Sprintf("{| x_name := %s; x_special := %s; x_genv := %s; x_gvars := %s; x_incvars := []; x_incfile := []; "+
 		"x_call := %s; x_tvars := %s; x_root_dir := %s; x_task_dir := %s; x_dir_tmpl := %s; x_tdot := %s; x_tenv := %s; x_matrix := %s; "+
 		"x_vprobes := %s; x_eprobes := %s; x_defers := %s |}",
-		cg.Str(x.Name), coqVars(x.Special), genvName, gvarsName, coqEntries(x.Call), coqEntries(x.TVars),
-		cg.Str(x.RootDir), cg.Str(x.TaskDir), coqDirTmpl(x.DirVar), coqVarsList(x.TDot), coqEntries(x.TEnv), coqOptStr(x.Matrix),
-		cg.StrList(x.VProbes), cg.StrList(x.EProbes), coqPartsList(x.Defers))
+		cg.Str(x.Name), in.Def("vars", coqVars(x.Special)), genvName, gvarsName, ents(x.Call), ents(x.TVars),
+		in.Def("string", cg.Str(x.RootDir)), in.Def("string", cg.Str(x.TaskDir)), coqDirTmpl(x.DirVar), coqVarsList(x.TDot), ents(x.TEnv), coqOptStr(x.Matrix),
+		strs(x.VProbes), strs(x.EProbes), coqPartsList(x.Defers))
+}
+
+// coqRowsShared: every row is defined once (most rows are the same in every case and before/after)
+func coqRowsShared(in *Interner, rs []Row) string {
+	items := make([]string, len(rs))
+	for i, r := range rs {
+		items[i] = in.Def("(string * list string)%type", cg.Pair(cg.Str(r.Key), cg.StrList(r.Items)))
+	}
+	return in.Def("rows", cg.List(items))
 }
 
 func coqCtx(x Ctx) string {
